@@ -490,37 +490,8 @@ def _makeLookupFlag_glue(ex, st, args, kwargs, node):
     return ex.call_contract(CONTRACTS["ufo2ft.featureWriters.ast:makeLookupFlag#" + key], args, kwargs, st, node)
 
 
-@specfn(List(Ref(NODE)), opaque=True, self=Ref("c18_Curs"), glyphs=List(Ref("c18_Glyph")), entryName=STR, exitName=STR)
-def cursive_statements(self, glyphs, entryName, exitName):
-    """what self._makeCursiveStatements(glyphs, entryName, exitName) returns — opaque in the logic; its own clause (one record per
-    glyph having at least one of the two anchors, rounded coordinates, missing side NULL) is checked on the real function by the hook"""
-    return [M.P(s) for s in M.raw(self)._makeCursiveStatements(list(glyphs), entryName, exitName)]
-
-
-def _mcs(ex, st, self, args, kwargs, node):
-    return ex.apply_spec(SPECFNS["cursive_statements"], [self] + list(args), st, node)
-
-
-cls("c18_Curs", fields={}, methods={"_makeCursiveStatements": _mcs}, notes="a CursFeatureWriter; `_makeCursiveStatements` enters as the opaque function cursive_statements")
-
-_CS = "cursive_statements(self, glyphs, entryName, exitName)"
-_LTR = "(entryName.endswith('.LTR') or (not entryName.endswith('.RTL') and direction is not None and direction == 'LTR'))"
-contract(
-    "ufo2ft.featureWriters.cursFeatureWriter:CursFeatureWriter._makeCursiveLookup",
-    props=["C18"],
-    params={"self": Ref("c18_Curs"), "glyphs": List(Ref("c18_Glyph")), "entryName": STR, "exitName": STR, "direction": Opt(STR)},
-    returns=Opt(Ref(NODE)),
-    globals={"ast": M.fea_shim(makeLookupFlag=_makeLookupFlag_glue), "isinstance": M.ISINSTANCE},
-    ensures={
-        "none-iff-no-records": f"iff(result is None, len({_CS}) == 0)",
-        # RightToLeft (bit 1) is CLEARED exactly for an .LTR suffix, or no direction suffix and a lookup built for LTR glyphs; IgnoreMarks (8) always set
-        "flag": f"implies(result is not None, result.kind == 'LookupBlock' and result.statements[0].kind == 'LookupFlagStatement'"
-        f" and result.statements[0].value == ite({_LTR}, 8, 9))",
-        "records": f"implies(result is not None, len(result.statements) == 1 + len({_CS}))",
-    },
-    bounded_ensures={"record-kinds": "result is None or all(s.kind == 'CursivePosStatement' for s in result.statements[1:])"},
-    canaries={"always-rtl": "implies(result is not None, result.statements[0].value == 9)"},
-)
+# (`CursFeatureWriter._makeCursiveLookup` is verified in contracts/c18curs.py against the contract of the real `_makeCursiveStatements`; the first-wave
+# contract that went through the opaque stand-in `cursive_statements` is gone)
 
 
 # ---- run-time side ---------------------------------------------------------------------------------------------------
@@ -630,6 +601,4 @@ def _lookup_build(d):
     return {"self": w, "glyphs": [ufo["a"], ufo["b"]], "entryName": entry, "exitName": exit_, "direction": d["direction"]}
 
 
-CONTRACTS["ufo2ft.featureWriters.cursFeatureWriter:CursFeatureWriter._makeCursiveLookup"].runtime = Runtime(
-    _lookup_cases, _lookup_build, call=lambda fn, a: fn(a["self"], a["glyphs"], a["entryName"], a["exitName"], direction=a["direction"])
-)
+
